@@ -420,6 +420,18 @@ class Interp:
             slf = getattr(fn, "__self__", None)
             if slf is not None and not isinstance(slf, type):
                 self.note_write(slf, f"{type(slf).__name__}.{fn.__name__}")
+        if isinstance(fn, types.BuiltinMethodType) and isinstance(getattr(fn, "__self__", None), list) and fn.__name__ == "remove" and len(args) == 1 and not kwargs:
+            # list.remove(x) over elements whose class defines __eq__: the first element that is x or equals x
+            lst, x = fn.__self__, args[0]
+            for i, e in enumerate(list.__iter__(lst)):
+                same = e is x
+                if not same:
+                    r = yield from self.rich_compare("eq", e, x)
+                    same = self.truth(r)
+                if same:
+                    list.__delitem__(lst, i)
+                    return None
+            raise PyExc(ValueError("list.remove(x): x not in list"))
         # callable instance with repo __call__?
         call = getattr(type(fn), "__call__", None)
         if is_repo_function(call):
